@@ -19,6 +19,7 @@ import random
 import re
 import shutil
 import subprocess
+import sys
 import tempfile
 import time
 from concurrent.futures import ThreadPoolExecutor
@@ -26,6 +27,7 @@ from concurrent.futures import ThreadPoolExecutor
 import lib
 
 NEED_ML = False
+sys.setrecursionlimit(max(sys.getrecursionlimit(), 60000))      # generated trees nest a few thousand levels
 
 CORPUS = os.path.join(lib.VERIF, "corpus", "C01")
 SCHEMA_V = os.path.join(lib.COQ, "Gen", "YangSchema.v")
@@ -1274,10 +1276,6 @@ class SetGen:
             self.dist["unit:" + u.kind] += 1
             out.append((u.name + ".yang", t))
         return out
-
-
-def tuple_to_list(forest):
-    return forest
 
 
 # ------------------------------------------------------------------ (ii) statement-level mutation
